@@ -68,6 +68,8 @@ theorem idle_frame_c (cfg : Cfg) (base : Nat) (s : St) (sched : List Tid) (h : R
 /-- thread `c` has returned from its call -/
 def cRet (a : St) (rest : List Call) (r : Res) : Prop := a.C.pc = .idle ∧ a.C.prog = rest ∧ a.C.res = some r
 
+instance (a : St) (rest : List Call) (r : Res) : Decidable (cRet a rest r) := by unfold cRet; infer_instance
+
 /-! ### `ReadWait(n)` (`w = true`) and `ReadPeek(n)` (`w = false`) -/
 
 /-- the call `ReadWait(n)` resp. `ReadPeek(n)` -/
